@@ -45,7 +45,7 @@ def run(tier):
     c = Counter()
     import docs
     rdoc, redits = docs.reorder_doc()
-    dl = docrun.synthesized(sd + 71, 4 if tier == "quick" else 16, ncontracts=2, nblocks=5) + docs.analysis_failing() + [rdoc]
+    dl = docrun.synthesized(sd + 71, 4 if tier == "quick" else 16, ncontracts=2, nblocks=5) + docs.analysis_failing() + [rdoc, docs.many_subblocks_doc()]
     samples = []
     for opts in (["-greedy"], ["-greedy", "-storage", "-push0"]) if tier == "quick" else (["-greedy"], ["-greedy", "-storage"], ["-greedy", "-push0"], ["-greedy", "-size", "-partition"]):
         first = docrun.run_docs(dl, opts + ["-log"])
